@@ -13,7 +13,7 @@ from ..engine import Space
 PROPERTY = "C20"
 LEVEL = "model_checking"
 VARIANTS = ["fast", "tsan"]
-RULE = ("pool of 33 programs (4 of them for VMs with different operator registrations, 2 with different config trees loaded); (a) each twice; (b) all ordered pairs x {Q's VM destroyed, alive, both VMs created and configured before either runs}; (c) controlled two-thread exploration for Q in the "
+RULE = ("pool of 34 programs (4 of them for VMs with different operator registrations, 2 with different config trees loaded); (a) each twice; (b) all ordered pairs x {Q's VM destroyed, alive, both VMs created and configured before either runs}; (c) controlled two-thread exploration for Q in the "
         "state-touching subset x all P with <=1 (quick) / <=2 (thorough) preemptions at instruction boundaries; TSan free-running over a pair "
         "subset; states = scheduling points / VM runs, transitions = executions; non-trivial = pair with Q != P")
 ASSUMPTIONS = [
@@ -73,6 +73,9 @@ POOL["configparse"] = ('private _c = configparse__ "class Other { v = 5; }; clas
 # diagnostics are part of the output: what one instance was warned about says nothing about another one
 POOL["undefined-read"] = 'private _v = iso_undefined; private _w = _iso_undefined_local; for "_i" from 1 to 2 do { _v = ISO_Undefined }; diag_log str [isNil "_v", isNil "_w"]'
 POOL["undefined-read-other"] = 'private _v = iso_undefined; diag_log str [isNil "_v"]; 1 + "a"'
+# listings of the operator tables: the same operators, the same listing - whatever other instances registered before
+POOL["command-listings"] = ('private _c = cmds__; private _i = cmdsimplemented__; private _v = cmdsvm__; diag_log str [count _c, _c select 600, _c select 1500, _c select 2500, '
+                            'count _i, _i select 100, _i select 300, count _v, _v]')
 POOL_CFG = {"config-lookup-a": CFG_A, "config-lookup-b": CFG_B}
 OPSET = {"words-are-variables": "basic", "synth-words-are-operators": "synth"}    # default: full
 NAMES = list(POOL)
